@@ -175,6 +175,18 @@ func (g *c01gen) dml() string {
 		return fmt.Sprintf("(%d, %d)", id, n)
 	}
 	_ = tail
+	if three && g.r.Bool(0.07) {
+		// statements that name two tables and change one of them (or both)
+		o := "t1"
+		if t == "t1" {
+			o = "t0"
+		}
+		return g.r.PickS(
+			fmt.Sprintf("UPDATE %s, %s SET %s.n = %s.n + 1 FROM %s JOIN %s ON %s.id = %s.id;", o, t, t, t, t, o, t, o),
+			fmt.Sprintf("UPDATE %s, %s SET %s.n = %s.n + 1 FROM %s JOIN %s ON %s.id = %s.id;", t, o, t, t, t, o, t, o),
+			fmt.Sprintf("UPDATE %s, %s SET %s.n = %s.n + 1, %s.n = %s.n + 2 FROM %s JOIN %s ON %s.id = %s.id;", t, o, t, t, o, o, t, o, t, o),
+			fmt.Sprintf("DELETE %s, %s FROM %s JOIN %s ON %s.id = %s.id WHERE %s.id = %d;", o, t, t, o, t, o, t, 1+g.r.Intn(5)))
+	}
 	if g.r.Bool(0.08) {
 		// every record is replaced by itself with values that only differ in their spelling (letter case,
 		// surrounding blanks, a number written as a float): still a change of the table
